@@ -5,6 +5,7 @@ claimed by exactly one rule, otherwise it is printed to stderr as UNEXPLAINED (a
 Clusters claimed by the same rule with the same (scenario-independent) facet+deviation are merged (cells united)."""
 import json, sys, importlib.util
 prop, pfile, rfile = sys.argv[1:4]
+NOMERGE = len(sys.argv) > 4 and sys.argv[4] == "nomerge"
 spec = importlib.util.spec_from_file_location("rules", rfile); mod = importlib.util.module_from_spec(spec); spec.loader.exec_module(mod)
 out = {}
 unexplained = 0
@@ -16,7 +17,7 @@ for line in open(pfile):
         print("UNEXPLAINED" if not hits else "AMBIGUOUS", e["scenario"], e["facet"], e["deviation"], e["witness"]["case"], e["witness"]["cases"], file=sys.stderr)
         continue
     rid, what, _, keep = hits[0]
-    key = (rid, e["facet"], e["deviation"])
+    key = (rid, e["facet"], e["deviation"]) if not NOMERGE else (rid, e["facet"], e["deviation"], json.dumps({k: v for k, v in e["cell"].items() if k in keep}, sort_keys=True))
     cell = {k: v for k, v in e["cell"].items() if k in keep}
     if key not in out:
         out[key] = {"kind": "finding", "property": prop, "id": rid, "facet": e["facet"], "deviation": e["deviation"], "cell": cell, "what": what,
@@ -29,7 +30,8 @@ for line in open(pfile):
             else:
                 del c[k]
 n = {}
-for (rid, facet, dev), e in sorted(out.items()):
+for key, e in sorted(out.items()):
+    rid = key[0]
     n[rid] = n.get(rid, 0) + 1
     if sum(1 for k in out if k[0] == rid) > 1:
         e["id"] = f"{rid}.{n[rid]}"
